@@ -153,7 +153,7 @@ def real_target_parent(obj, segs):
 
 CLEAN = (AttributeError, KeyError, TypeError, ValueError)
 LETTERS = [["read"], ["write", 5], ["write", "zz"], ["write", None], ["write", 0], ["delete"], ["wtarget", 7], ["dtarget"], ["droot"], ["with_alias", 4], ["with_target", 6],
-           ["deepcopy"], ["mutate_last"]]
+           ["deepcopy"], ["mutate_last"], ["reset_alias"]]
 
 
 def run_seq(ctx, case):
@@ -301,6 +301,31 @@ def run_seq(ctx, case):
                     return
             if not check_warn(w, i, op):
                 return
+        elif name == "reset_alias":
+            # the generated reset_<alias>(_inplace=True) of a spec host: what `del obj.<alias>` does, where that is possible;
+            # where there is nothing to delete it may refuse like `del` or do nothing
+            if not spec or not hasattr(obj, "reset_al"):
+                continue
+            (rk, rv), w = do(lambda: obj.reset_al(_inplace=True))
+            if rk == "raise" and type(rv).__name__ == "FrozenInstanceError":
+                continue
+            if cfg["passthrough"]:
+                try:
+                    parent = model_get(state, segs[:-1])
+                    k = segs[-1][0] if isinstance(segs[-1], tuple) else segs[-1]
+                    ok = isinstance(parent, dict) and k in parent
+                except LookupError:
+                    ok = False
+                if ok:
+                    if rk == "raise":
+                        ctx.fail(f"{tag}:reset_alias:unexpected_raise:{type(rv).__name__}", case, f"step {i} reset_al(_inplace=True) raised {rv!r} (state={state!r})")
+                        return
+                    del parent[k]
+            elif override is not None:
+                if rk == "raise":
+                    ctx.fail(f"{tag}:reset_alias:unexpected_raise:{type(rv).__name__}", case, f"step {i} reset_al(_inplace=True) with a local override raised {rv!r}")
+                    return
+                override = None
         elif name in ("wtarget", "dtarget", "droot"):
             # direct manipulation of the target (never through the alias)
             try:
